@@ -80,6 +80,7 @@ BREAK = {
         (['C06.e'], FR, "        if frag_offset == 0:\n            reassm.first_frag = ctr.bundle", "        if reassm.first_frag is None:\n            reassm.first_frag = ctr.bundle"),
     ],
     'C07': [
+        (['C07.g'], 'tcpcl/formats.py', "        return (None, s)\n", "        return (None, None)\n"),
         (['C07.a'], S, "            if self._tls_attempt:\n                if self.__rx_buf:\n", "            if self._tls_attempt or self._config.tls_enable:\n                if self.__rx_buf:\n"),
         (['C07.b'], 'tcpcl/cmd.py', "    logging.basicConfig(\n", "    from scapy.config import conf\n    conf.debug_dissector = True\n    logging.basicConfig(\n"),
         (['C07.d'], M, "    def post_dissection(self, pkt):\n        ''' remove padding from payload list after disect() completes '''\n", "    def pre_dissect(self, s):\n        if len(s) < 3:\n            raise formats.VerifyError('Message too short')\n        return s\n\n    def post_dissection(self, pkt):\n        ''' remove padding from payload list after disect() completes '''\n"),
@@ -124,6 +125,7 @@ BREAK = {
         (['C09.g'], 'tcpcl/agent.py', "        for hdl in tuple(self._handlers):\n            hdl.close()", "        for hdl in self._handlers:\n            hdl.close()"),
     ],
     'C10': [
+        (['C10.u'], 'bp/app/safe.py', "self._safe.own_eid = safe_config.get('endpoint')", "self._safe.own_eid = safe_config.get('endpoint') or (config.node_id + 'safe')"),
         (['C10.c'], 'bp/config.py', "                            self.rx_route_table.append(RxRouteItem(", "                            self.rx_route_table.insert(0, RxRouteItem("),
         (['C10.c'], 'bp/config.py', "                                action=item['action'],\n", "                                action=item.get('action', 'deliver'),\n"),
         (['C10.b'], BU, "        if pri.bundle_flags & PrimaryBlock.Flag.IS_FRAGMENT:\n            # fragments with the same offset can differ in extent\n", "        if True:\n"),
@@ -170,6 +172,7 @@ BREAK = {
         (['C13.f'], UA, "        self._rx_queue[item.transfer_id] = item\n        self.recv_bundle_finished(str(item.transfer_id), item.total_length, metadata)", "        self.recv_bundle_finished(str(item.transfer_id), item.total_length, metadata)\n        self._rx_queue[item.transfer_id] = item"),
     ],
     'C14': [
+        (['C14.g'], 'tcpcl/formats.py', "    def __init__(self, name, default):\n        fields.Field.__init__(self, name, default, '!H')\n", "    def __init__(self, name, default):\n        fields.Field.__init__(self, name, default, '!H')\n\n    def i2m(self, pkt, x):\n        return int(x or 0) % 65536\n"),
         (['C14.b'], S, "                val = dbus.UInt64(val)", "                val = dbus.UInt64(min(2 ** 31 - 1, val))"),
         (['C14.d'], S, "        if not self._in_term:\n            # once terminating only what is heard from the peer defers\n            # the idle close, not the keepalives this side keeps sending\n            self._idle_reset()", "        self._idle_reset()"),
         (['C14.d'], S, "        # the last time this side defers the idle close by itself\n        self._idle_reset()\n", ""),
@@ -179,6 +182,8 @@ BREAK = {
         (['C14.d'], S, "        self._keepalive_reset()\n        if not self._in_term:\n            # once terminating only what is heard from the peer defers\n            # the idle close, not the keepalives this side keeps sending\n            self._idle_reset()", "        self._keepalive_reset()"),
     ],
     'C15': [
+        (['C15.k'], 'tcpcl/agent.py', "config=self._config, sock=newsock", "config=copy.copy(self._config), sock=newsock"),
+        (['C15.j'], S, "    def close(self):\n        self._idle_stop()\n        self._keepalive_stop()\n", "    def close(self):\n        if self._in_term and not self.is_sess_idle():\n            return\n        self._idle_stop()\n        self._keepalive_stop()\n"),
         (['C15.a'], S, "        self._tls_attempt = (this_can_tls and peer_can_tls)", "        self._tls_attempt = (this_can_tls or peer_can_tls)"),
         (['C15.b'], S, "                if self.is_secure() != self._config.require_tls:\n                    self._logger.error('TLS result violated policy')\n                    self.close()\n                    return", "                if self.is_secure() != self._config.require_tls:\n                    self._logger.error('TLS result violated policy')"),
         (['C15.c'], S, "            netname_absent = not authn_ipaddrid and not authn_dnsid", "            netname_absent = authn_ipaddrid is None and authn_dnsid is None"),
@@ -231,6 +236,8 @@ BREAK = {
         (['C19.d'], BA, "                    # the step took over transmission (e.g. sent fragments)\n                    self._logger.debug('Step %5.1f interrupted the chain', step.order)\n                    return", "                    self._logger.debug('Step %5.1f interrupted the chain', step.order)\n                    break"),
     ],
     'C20': [
+        (['C20.n'], BT, "        LOGGER.debug('Sending message size %d from %s to %s', len(data), self.src, self.dst)\n", "        data = data + bytes(max(0, 46 - len(data)))\n        LOGGER.debug('Sending message size %d from %s to %s', len(data), self.src, self.dst)\n"),
+        (['C20.m'], BT, "            file=file\n        )\n        return str(self._add_tx_item(item))", "            file=file,\n            transfer_id=self._tx_id\n        )\n        return str(self._add_tx_item(item))"),
         (['C20.g'], BT, "        item.transfer_id = copy.copy(self._rx_id)\n        self._rx_id += 1\n", "        item.transfer_id = copy.copy(self._rx_id)\n"),
         (['C20.f'], BT, "        self._recv_msg(sock, frame.payload.load, conv)", "        self._recv_msg(sock, frame.payload.load.rstrip(b'\\x00'), conv)"),
         (['C20.b'], BT, "        if mtu is None or total_len <= (mtu - 4):", "        if mtu is None or total_len <= mtu:"),
@@ -242,6 +249,8 @@ BREAK = {
         (['C20.e'], BT, "                    if xfer.got_end is not None:", "                    if xfer.got_end:"),
     ],
     'C02': [
+        (['C02.c'], 'scapy_cbor/packets.py', "        if isinstance(self.payload, scapy.packet.NoPayload):\n            s = None\n        else:\n            s = CborArray.do_build_payload(self)\n", "        s = CborArray.do_build_payload(self)\n        if s == b'':\n            s = None\n"),
+        (['C02.e'], 'bp/encoding/fields.py', "            segs = list(map(int, ssp.split('.')))\n", "            segs = list(map(int, ssp.split('.')))\n            segs[0] = segs[0] & 0xFFFFFFFF\n"),
         (['C02.d'], BN, "        if flags & PrimaryBlock.Flag.PAYLOAD_ADMIN and not flags & PrimaryBlock.Flag.IS_FRAGMENT:", "        if flags & PrimaryBlock.Flag.PAYLOAD_ADMIN:"),
         (['C02.d'], BN, "                    try:\n                        pay = AdminRecord(blk_data)\n                    except Exception:\n                        # a record which this node cannot interpret\n                        # stays opaque block data\n                        continue\n", "                    pay = AdminRecord(blk_data)\n"),
         (['C02.a'], BL, "        UintField('lifetime', default=0),\n", "        UintField('lifetime', default=0),\n        UintField('spare', default=0),\n"),
